@@ -549,7 +549,7 @@ def run_shard(ctx):
                                      digest_size=8).hexdigest())
             hists.add(tuple(case['hist']))
             if i % 53 == 2 and len(samples) < 5:
-                samples.append({'pattern': case.get('pat') or 'DSL#%d' % case['dsl'], 'texts': case['texts'][:2], 'history': case['hist']})
+                samples.append({'pattern': case['pat'] if 'pat' in case else 'DSL#%d' % case['dsl'], 'texts': case['texts'][:2], 'history': case['hist']})
             for v in M.viols[before:]:
                 if v['property'] == check:
                     sig = '%s|%s' % (v['symptom'], v.get('cache', ''))
